@@ -9,7 +9,7 @@ notrep = [r for r in tot if '| NOT reported' in r]
 ctl_bad = [r for r in rows if 'control (unchanged copy)' in r and 'clean' not in r.split('|')[3]]
 lines = []
 lines.append(f"* {len(tot)} changes (seeded: {sum('seeded/' in r for r in tot)}, reverted repairs: {sum('regress/' in r for r in tot)}); "
-             f"{len(rep)} reported by the check of their own property; control copies clean for {sum('control' in r for r in rows) - len(ctl_bad)} of {sum('control' in r for r in rows)} properties.")
+             f"{len(rep)} reported by the check of their own property; control copies clean for {sum('control (unchanged copy)' in r for r in rows) - len(ctl_bad)} of {sum('control (unchanged copy)' in r for r in rows)} properties.")
 for r in notrep:
     cells = [c.strip() for c in r.strip('|').split('|')]
     lines.append(f"* not reported by its own property's check: `{cells[1]}` ({cells[3]})")
